@@ -2961,12 +2961,8 @@ CaseExtRm:
           goto EmitVexEvexR;
         }
 
-        // Form 'k, k'.
-        if (!Support::test(options, InstOptions::kX86_ModMR))
-          goto EmitVexEvexR;
-
-        opcode.add(1);
-        std::swap(op_reg, rb_reg);
+        // Form 'k, k' - only encodable as 'KMOV k1, k2/m' (90 /r), the store form (91 /r) accepts only memory
+        // destination (MOD == 11 is #UD), so there is no ModMR alternative.
         goto EmitVexEvexR;
       }
 
